@@ -22,7 +22,8 @@ SCRATCH = "/tmp/seedverify"
 
 
 def sh(cmd, cwd=None, timeout=3600):
-    env = dict(os.environ, GOFLAGS="-mod=mod", GOPROXY="off", GOSUMDB="off", GOTOOLCHAIN="local")
+    env = dict(os.environ, GOFLAGS="-mod=mod", GOPROXY="off", GOSUMDB="off", GOTOOLCHAIN="local",
+               VERIF_EVIDENCE_DIR=os.path.join(ROOT, ".work", "evidence-scratch"))
     p = subprocess.run(cmd, shell=True, cwd=cwd, env=env, stdout=subprocess.PIPE, stderr=subprocess.STDOUT, text=True, errors="replace", timeout=timeout)
     return p.returncode, p.stdout
 
